@@ -73,7 +73,13 @@ TRUSTED = ["PARTIAL: HTTP (Flask, werkzeug), JSON encoding/decoding, dpath, PyYA
            "a situation into the population and id lists given to the model, flattening of JSON documents to depth-4 paths",
            "the engine values in the table-backed model operations come from the harness's own simulations of the real "
            "engine (second system instance, new SimulationBuilder, one simulation per requested variable and period)"]
-ASSUMPTIONS = ["generated rule systems are ranked in the sense of C01 (no self-dependence, eternal variables have no formula)",
+ASSUMPTIONS = ["float slots: /calculate must give the shortest decimal text that identifies the float32 value (the harness "
+               "computes it with numpy.format_float_scientific(unique=True) and hands the model both the exact value and "
+               "that text as rationals), /trace the exact value; the oracle asks that the JSON number cast to float32 is the "
+               "engine's float32 bit for bit.  Expected YAML numbers are cast to float32 by the harness before the model "
+               "sees them (as assert_near does); for values needing 8-9 digits only equal / far-beyond expectations are "
+               "generated, so float32 rounding of the difference cannot decide a verdict",
+               "generated rule systems are ranked in the sense of C01 (no self-dependence, eternal variables have no formula)",
                "values are exactly representable (ints below 2^22, floats multiples of 1/64): float rendering "
                "float(str(float32)) and the float32 arithmetic of assert_near are then exact; other cases are skipped and counted",
                "YAML margins are >= 0; expected dates are full ISO dates; expectations of numeric variables are numbers "
@@ -373,8 +379,9 @@ def engine_values(tbs, situation, cells, default_period=None):
                 sim = sb.build_from_entities(tbs, copy.deepcopy(situation))
             arr = sim.calculate(v, pk)
             out[(v, pk)] = to_raws(tbs.get_variable(v), arr)
-        except Inexact:
-            raise
+        except (Inexact, rules.Inexact):
+            # (rules.py formulas raise rules.Inexact for a DIVIDE dependency that is not exact: the case is skipped)
+            raise Inexact("inexact rule-language arithmetic")
         except Exception as e:  # noqa: BLE001
             out[(v, pk)] = Err(errkind(e), f"{type(e).__name__}: {e}"[:160])
     return out
